@@ -26,15 +26,20 @@ META = {
 
 def configs(tier):
     cfgs = []
-    dmax, qmax, mmax, cap = (3, 3, 3, 1000) if tier == 'quick' else (4, 3, 4, 70000)
+    dmax, qmax, mmax, cap = (3, 3, 3, 25000) if tier == 'quick' else (4, 3, 4, 250000)
+
+    def n_paths(strat, d, q, m):
+        # sum over all subsets (by size s) and the 4 container forms of the number of draw outcomes
+        import math
+        return 4 * sum(math.comb(d, s) * m ** (q * (1 if strat == 'joint' else s)) for s in range(d + 1))
     for strat in ('joint', 'product'):
         for d in range(1, dmax + 1):
             for q in range(1, qmax + 1):
                 for m in range(1, mmax + 1):
-                    worst = m ** (q * (1 if strat == 'joint' else d))
-                    if worst > cap:
+                    total = n_paths(strat, d, q, m)
+                    if total > cap:
                         continue
-                    cfgs.append(dict(group='marginal', strat=strat, d=d, q=q, m=m, storage='batch', _cost=worst * 2 ** d))
+                    cfgs.append(dict(group='marginal', strat=strat, d=d, q=q, m=m, storage='batch', _cost=total))
         for st in ('interval', 'sequence', 'uniform', 'geometric'):
             cfgs.append(dict(group='marginal', strat=strat, d=2, q=2, m=1 if st == 'sequence' else 2, storage=st, _cost=64))
         for nm in ('int', 'float', 'mixed'):
